@@ -151,6 +151,37 @@ def run_sequence(c, rng, kbpk, ops, names):
 
 
 def generate(rng, tier, seed):
+    # single-length (8-byte) KBPK: admissible for versions A and C only; operations of those versions followed by B / D ones on the
+    # same object must fail exactly as on a fresh object
+    for _ in range(20 if tier == "quick" else 100):
+        kbpk = rb(rng, 8)
+        c = Case("single-length-kbpk-sequence", {})
+        se = Session(c, kbpk, None)
+        others = {v: tr31.wrap(rb(rng, 16), make_header(rng, v, rand_blocks(rng, 1)), rb(rng, 16)) for v in "BD"}
+        for step in range(rng.randrange(3, 7)):
+            v = rng.choice("ACACBD")
+            if v in "AC":
+                g = tr31.wrap(kbpk, make_header(rng, v, rand_blocks(rng, rng.randrange(0, 2))), rb(rng, 16))
+                r = se.unwrap(g if rng.random() < 0.8 else g[:-1] + ("0" if g[-1] != "0" else "1"))
+                if rng.random() < 0.4:
+                    se.wrap(rb(rng, 16), None)
+            else:
+                what = rng.choice(["unwrap", "load-wrap"])
+                if what == "unwrap":
+                    r = se.unwrap(others[v])
+                    kb = tr31.KeyBlock(kbpk)
+                    q = call_impl(kb.unwrap, (others[v],), stream="tr31")
+                    if q.ok != r.ok or (not r.ok and (q.err != r.err or str(q.exc) != str(r.exc))):
+                        c.fail(f"unwrap of a version {v} block under an 8-byte KBPK: reused object {r.exc!r}, fresh object {q.exc!r}")
+                else:
+                    se.load(str(make_header(rng, v, [])))
+                    w = se.wrap(rb(rng, 16), None)
+                    if w.ok:
+                        c.fail(f"wrap under a version {v} header succeeded with an 8-byte KBPK")
+            if bytes(se.kb.kbpk) != kbpk:
+                c.fail("the object's KBPK changed although nothing assigned to it")
+                break
+        yield c
     n = 150 if tier == "quick" else 600
     for _ in range(n):
         kbpk = rb(rng, rng.choice([16, 24]))
